@@ -148,8 +148,17 @@ pub trait Prop: 'static {
     /// human-readable form of a case (for evidence samples and replay files)
     fn describe(case: &Self::Case) -> Value;
     /// extra work after the generated cases (e.g. out-of-process CLI part); may add evidence keys
-    fn extra(_tier: Tier, _seed: u64, _ev: &mut BTreeMap<String, Value>) -> Result<(), (Failure, Value)> {
-        Ok(())
+    /// Default: in the thorough tier, a coverage-guided fuzzing campaign over the property's own
+    /// strategy and check (engine E4, `semfuzz`).
+    fn extra(tier: Tier, seed: u64, ev: &mut BTreeMap<String, Value>) -> Result<(), (Failure, Value)>
+    where
+        Self: Sized,
+    {
+        if tier == Tier::Thorough {
+            crate::semfuzz::campaign::<Self>(seed, ev)
+        } else {
+            Ok(())
+        }
     }
 }
 
